@@ -78,7 +78,10 @@ fn shard(ctx: &Ctx, ifaces: &[&'static IfaceDesc], shard: usize, cases: u64) -> 
                 0 => {
                     let f = *rng.pick(&ALL_FAULTS);
                     let m = gen.faulty_msg(f, rng.below(3) as u8, &mut rng).unwrap_or_else(|| gen.valid_msg(&mut rng));
-                    stream.extend_from_slice(&m.render(&Style::plain()));
+                    let mut st = Style::plain();
+                    st.seed = rng.next();
+                    st.case = rng.below(3) as u8;
+                    stream.extend_from_slice(&m.render(&st));
                 }
                 1 => {
                     for _ in 0..rng.range(1, 14) {
@@ -125,6 +128,29 @@ fn shard(ctx: &Ctx, ifaces: &[&'static IfaceDesc], shard: usize, cases: u64) -> 
                 judge(&mut acc, pz.name, "run", &input, "literal pool, heapless::Vec<u8,64>".into(), &out);
                 let out = (pz.process)(&ProcSpec { stream: &input, n: 256, chunks: &[5, 0, 7], pend_seed: 0, fault_at: None });
                 judge(&mut acc, pz.name, "process", &input, "literal pool, N=256".into(), &out);
+            }
+        }
+    }
+    // malformed literals (the error paths of the literal parsers) to every parameter type
+    if let Some(pz) = ifaces.iter().find(|i| i.name == "pzoo") {
+        if shard == 0 {
+            let bad: [&[u8]; 34] = [
+                b"#2xyhello", b"#1-", b"#1x", b"#9abc", b"#3 12abc", b"#21", b"#H", b"#HZZ", b"#Q9", b"#B2", b"#", b"1E", b"1E+", b"--1", b"1..2", b"'open", b"\"open", b"#0", b"#00",
+                b"@", b"1 2", b"1,", b",1", b"1,,2", b"#1", b"#9", b"#11", b"+", b"-", b".", b"1e1e1", b"#h", b"\xff", b"#2\xff\xfe12",
+            ];
+            for b in bad {
+                for t in crate::ev::ALL_TYS {
+                    for lower in [false, true] {
+                        let head = format!("P:{} ", t.name().to_ascii_uppercase());
+                        let mut input = if lower { head.to_ascii_lowercase().into_bytes() } else { head.into_bytes() };
+                        input.extend_from_slice(b);
+                        input.push(b'\n');
+                        let out = (pz.run)(&RunSpec { inputs: &[&input], writer: WriterKind::Heapless(64), pend_seed: 0 });
+                        judge(&mut acc, pz.name, "run", &input, "malformed literal, heapless::Vec<u8,64>".into(), &out);
+                        let out = (pz.process)(&ProcSpec { stream: &input, n: 64, chunks: &[3, 0, 4], pend_seed: 0, fault_at: None });
+                        judge(&mut acc, pz.name, "process", &input, "malformed literal, N=64".into(), &out);
+                    }
+                }
             }
         }
     }
